@@ -101,7 +101,8 @@ mod imp {
     pub fn accessors<V, T>(v: &V, want: &[Cell]) -> Vec<String>
     where
         V: Vec1View<T> + SliceRead<T>,
-        T: Elem,
+        T: Elem + IsNone,
+        Option<T::Inner>: Elem,
     {
         let n = want.len();
         let mut bad = vec![];
@@ -121,7 +122,21 @@ mod imp {
                 if !same(&x.dec(), &want[i]) {
                     bad.push(format!("uget({i}) = {}", x.dec().show()));
                 }
+                let x = unsafe { v.uvget(i) };
+                if !same(&x.dec(), &want[i]) {
+                    bad.push(format!("uvget({i}) = {}", x.dec().show()));
+                }
             }
+            // the null-aware checked accessor: the valid value, None for a null and beyond the end
+            let x = v.vget(i);
+            let w = if i < n { want[i].clone() } else { Cell::Null };
+            if !same(&x.dec(), &w) {
+                bad.push(format!("vget({i}) = {}", x.dec().show()));
+            }
+        }
+        let opts: Vec<Cell> = v.to_opt_iter().map(|x| x.dec()).collect();
+        if !cells_eq(&opts, want, exact_eq) {
+            bad.push(format!("to_opt_iter() = {}", show_cells(&opts)));
         }
         let fwd: Vec<Cell> = v.titer().map(|x| x.dec()).collect();
         if !cells_eq(&fwd, want, exact_eq) {
